@@ -14,7 +14,7 @@ Require Import GV.Base.Res GV.Base.Byt GV.Base.Ints GV.Model.Leb GV.Model.Prim
                GV.Spec.LebSpec GV.Spec.FormSpec GV.Model.Attr GV.Spec.Forest GV.Model.AbbrevRd
                GV.Model.DieRd GV.Proofs.AttrProofs GV.Proofs.AbbrevRdProofs GV.Proofs.DieRdProofs GV.Proofs.NavProofs
                GV.Spec.ForestSel GV.Model.TreeWalk GV.Proofs.TreeWalkProofs GV.Proofs.CursorWalkProofs
-               GV.Proofs.SibBadProofs GV.Proofs.SibOvProofs.
+               GV.Proofs.SibBadProofs GV.Proofs.SibOvProofs GV.Proofs.SibOvTreeProofs.
 Import ListNotations.
 Local Open Scope N_scope.
 
@@ -514,6 +514,25 @@ Proof.
   intros dbg bigend types uoff h codes ov f pad tbl e body hdr He Hlen Hc Hok Hfit. split.
   - exact (SibOvProofs.enc_forest_ov_len codes ov bigend (header_len h) f pad).
   - exact (SibOvProofs.dfs_ov dbg bigend types uoff h codes ov f pad tbl He Hlen Hc Hok Hfit).
+Qed.
+
+(* the tree walk of tree_is_forest (children() of every node, entries_tree(None)) over the same units: it
+   rebuilds the tree with the overridden value shown in the DW_AT_sibling slots (dtree_ov). A walk that
+   iterates every child list calls EntriesTree::next only on entries without children or on list
+   terminators, so the fast path never runs: EVERY override value, the ignored class included.
+   Still MISSING: the next_sibling walk (siblings_all / cwalk_list), which consults the attribute. *)
+Theorem bad_sibling_full_walk_tree_partial : forall dbg bigend types uoff h codes (ov : N -> option N) t f pad tbl,
+  let e := mkEnc (uh_version h) (uh_fmt64 h) (uh_asize h) bigend in
+  let body := SibOvProofs.enc_forest_ov codes ov bigend (header_len h) (t :: f) pad in
+  let hdr := mkUnit e (unit_length_of bigend h (nlen body)) (uh_type h) (uh_abbrev_off h) types uoff body in
+  addr_size_ok e -> header_len h + nlen body < two63 ->
+  Forall (fun t => tbl_get tbl (t_code codes t) = Some (t_abbrev codes t)) (forest_nodes (t :: f)) ->
+  forest_ok codes e (t :: f) -> SibOvProofs.sibs_fit_ov codes ov (header_len h) (t :: f) ->
+  exists ts, entries_tree dbg hdr None = Ok ts /\
+             walk_tree dbg e tbl ts = Ok (Some (SibOvTreeProofs.dtree_ov codes ov 0 (header_len h) t), None).
+Proof.
+  intros dbg bigend types uoff h codes ov t f pad tbl e body hdr He Hlen Hc Hok Hfit.
+  exact (SibOvTreeProofs.tree_ov dbg bigend types uoff h codes ov t f pad tbl He Hlen Hc Hok Hfit).
 Qed.
 
 (* ex_root (offset 11) carries a DW_FORM_ref1 DW_AT_sibling; overridden by 11 (the entry itself) only the
